@@ -390,6 +390,71 @@ def api_case(rec, seed, digest, shape="object"):
     return None
 
 
+class FirstThen(object):
+    """entropy source whose first answer is the byte `a` repeated, later
+    answers come from a fixed deterministic stream"""
+
+    def __init__(self, a):
+        self.a, self.first, self.rest = a, True, Sha(b"rest")
+
+    def __call__(self, n):
+        if self.first:
+            self.first = False
+            return bytes([self.a]) * n
+        return self.rest(n)
+
+
+def repeat_case(rec, d, a1, a2, digest):
+    """two entropy-driven signatures on ONE key object: each nonce is the
+    value randrange draws from its own stream, whatever the object signed
+    before (in particular when both streams give the same nonce)"""
+    from ecdsa import util
+    from ecdsa.keys import SigningKey
+    from ecdsa.ecdsa import RSZeroError
+    from ..ref import ref_ecdsa as re_
+    env = ecd.env_for(rec)
+    n = env.n
+    e = env.e_of(digest)
+    sk = SigningKey.from_secret_exponent(d, env.curve)
+    for step, a in enumerate((a1, a2)):
+        want = util.randrange(n, FirstThen(a))
+        try:
+            r, sg = sk.sign_digest(digest, entropy=FirstThen(a),
+                                   allow_truncate=True,
+                                   sigencode=lambda r, s_, o: (int(r), int(s_)))
+        except RSZeroError:
+            if env.ref_sign(e, d, want) is not None:
+                return ("repeat:spurious-rszero", want, "RSZeroError")
+            continue
+        k = (e + r * d) * re_.modinv(sg, n) % n
+        if k != want:
+            return ("repeat:nonce-depends-on-earlier-signature"
+                    if step else "repeat:nonce-not-drawn-value", want, k)
+    return None
+
+
+def shard_repeat(arg):
+    rec, d, a1s, digest = arg
+    sh = Shard()
+    for a1 in a1s:
+        for a2 in range(256):
+            sh.n += 1
+            sh.nt += 1
+            bad = repeat_case(rec, d, a1, a2, digest)
+            if bad:
+                sh.hist["fail:" + bad[0]] += 1
+                sh.violation("repeat", bad[0],
+                             dict(rec=rec, d=d, a1=a1, a2=a2, digest=digest),
+                             bad[1], bad[2])
+            else:
+                sh.hist["repeat-ok"] += 1
+    sh.sample(dict(curve=[rec["p"], rec["a"], rec["b"]], d=d,
+                   sequence="sign_digest(entropy=stream a1); sign_digest("
+                   "entropy=stream a2) on one SigningKey, all (a1, a2)"),
+              cap=1)
+    return sh
+
+
 def shard_api(arg):
     rec, seeds, digests = arg
     sh = Shard()
@@ -682,7 +747,10 @@ def replay(check, case):
             return dict(cls=v["cls"], expected=v["expected"],
                         observed=v["observed"])
         return None
-    if check == "api":
+    if check == "repeat":
+        bad = repeat_case(case["rec"], case["d"], case["a1"], case["a2"],
+                          case["digest"])
+    elif check == "api":
         bad = api_case(case["rec"], case["seed"], case["digest"],
                        case.get("shape", "object"))
     elif check == "shape":
@@ -769,6 +837,12 @@ def main(ctx):
         for ch in common.chunks(seeds, 4):
             jobs.append((shard_api, "keygen-then-sign-one-stream",
                          (t.rec(), ch, dgs)))
+    # two signatures on one key object, all pairs of first answers
+    for t in pick[:ctx.pick(3, 6)]:
+        for d in (1, t.n - 1):
+            for ch in common.chunks(list(range(256)), 8):
+                jobs.append((shard_repeat, "two-signatures-one-key-object",
+                             (t.rec(), d, ch, b"\x5a\xa5")))
     for t in pick[:4]:
         for ch in common.chunks(list(range(256)), 4):
             jobs.append((shard_default, "default-entropy-source",
